@@ -75,5 +75,17 @@ Fixpoint states_after (es : list event) (s : state) : list val :=
   end.
 Definition e_trace (v : val) : val := VL (states_after (map dec_event (get_l v)) init).
 
+(* restart: [store; next id; clock; events] run from a fresh queue over that store *)
+Definition dec_store (v : val) : store :=
+  map (fun e => match get_l e with
+                | [i; snd; rc; att; ts] => (get_n i, mkMsg (get_bool snd) (get_b rc) (get_n att) (get_n ts))
+                | _ => (0%N, mkMsg false [] 0%N 0%N)
+                end) (get_l v).
+Definition e_trace_from (v : val) : val :=
+  match get_l v with
+  | [st; nx; c; es] => VL (states_after (map dec_event (get_l es)) (start_at (dec_store st) (get_n nx) (get_n c)))
+  | _ => VL []
+  end.
+
 Definition entries : list entry :=
-  [("cq_run"%string, e_run); ("cq_trace"%string, e_trace)].
+  [("cq_run"%string, e_run); ("cq_trace"%string, e_trace); ("cq_trace_from"%string, e_trace_from)].
